@@ -1331,6 +1331,24 @@ func (b *Body) firstByteIs(fn *ssa.Function, text ssa.Value, at *ssa.BasicBlock,
 			return fmt.Sprintf("dominated by a first-byte == %q test of the same text at %s", rune(ch), b.posOf(ifi))
 		}
 	}
+	// the same test held in a named boolean (`bothStrings := a[0] == '"' && b[0] == '"'`): the
+	// facts that hold at `at` include the operands of the conjunction
+	for _, f := range dominatingFacts(at) {
+		bo, ok := f.V.(*ssa.BinOp)
+		if !ok || (bo.Op != token.EQL && bo.Op != token.NEQ) {
+			continue
+		}
+		x, y := bo.X, bo.Y
+		if _, isC := intConst(x); isC {
+			x, y = y, x
+		}
+		if n, isC := intConst(y); !isC || n != ch || !fromText(x, 0) {
+			continue
+		}
+		if (bo.Op == token.EQL) == f.True {
+			return fmt.Sprintf("a first-byte == %q test of the same text holds here (%s)", rune(ch), b.posOf(bo))
+		}
+	}
 	return ""
 }
 
